@@ -434,6 +434,7 @@ func c16Replay(e *core.Env, data json.RawMessage) (bool, string) {
 func init() {
 	core.Register(&core.Check{
 		ID: "C16", Level: "model_checking", Run: c16Run, Replay: c16Replay,
+		Added:       "re-open of a closed account; position life histories; a 5000-booking file (each booking exactly once, 1 / 4 / all CPUs) + race detector",
 		QuickBudget: 100 * time.Second, ThoroughBudget: 14 * time.Minute,
 		Rule:        "every accepted journal of <= N directives over the valued alphabet of C03 (positions in USD/AAPL/EUR, sale to zero, liability, income collision, six price declarations) plus close/late open/late booking, x valuation {CHF, USD}; the beancount output is read back line by line: every transaction sums to exactly zero in V, every posting account has an open on or before its first use and is not used after its close, entries are chronological, and the multiset of transactions equals the reference's valued transactions (bookings at booking-day prices + one adjustment per day and position whose price changed) within one 1e-8 truncation per step; non-trivial = runs that produce a ledger",
 		Assumptions: []string{"journals whose price graph offers several indirect chains with different values are skipped for the value comparison", "runs that fail on a missing price are outside the property (C03 checks the failure rule)"},
